@@ -69,7 +69,7 @@ def lift_case_st(draw):
             rhs = {"k": rk, "dtype": "bool", "shape": sb, "unit": "dimensionless",
                    "vals": draw(st.lists(st.booleans(), min_size=vs.nelem(sb), max_size=vs.nelem(sb)))}
         return {"group": group, "op": op, "v": v, "rhs": rhs}
-    v = draw(vs.vector_specs(units=[ua], dtypes=[dt], shape=sa, nvec=nvec))
+    v = draw(vs.vector_specs(units=[ua], dtypes=[dt], shape=sa, nvec=nvec, specials=(group == "cmp")))   # NaN compares false
     case = {"group": group, "v": v}
     if group == "unary":
         case["op"] = draw(st.sampled_from(["neg", "pow"]))
